@@ -88,7 +88,10 @@ func main() {
 		}
 	}
 	// classify the direct uses of globals in a node (not descending into nested statement lists)
-	type use struct{ any, write, unknown bool }
+	type use struct {
+		any, write, unknown bool
+		vars                map[string]bool
+	}
 	var usesGlobal func(n ast.Node) use
 	usesGlobal = func(n ast.Node) (u use) {
 		if n == nil || reflect.ValueOf(n).IsNil() {
@@ -142,6 +145,10 @@ func main() {
 			case *ast.Ident:
 				if isGlobal(c) {
 					u.any = true
+					if u.vars == nil {
+						u.vars = map[string]bool{}
+					}
+					u.vars[c.Name] = true
 				}
 			}
 			return true
@@ -151,6 +158,12 @@ func main() {
 	merge := func(us ...use) (r use) {
 		for _, u := range us {
 			r.any, r.write, r.unknown = r.any || u.any, r.write || u.write, r.unknown || u.unknown
+			for v := range u.vars {
+				if r.vars == nil {
+					r.vars = map[string]bool{}
+				}
+				r.vars[v] = true
+			}
 		}
 		return
 	}
@@ -243,7 +256,12 @@ func main() {
 				if u.write {
 					kind = "w"
 				}
-				site := fmt.Sprintf("%s:%d:%s", filepath.Base(pos.Filename), pos.Line, kind)
+				var vs []string
+				for v := range u.vars {
+					vs = append(vs, v)
+				}
+				sort.Strings(vs)
+				site := fmt.Sprintf("%s:%d:%s:%s", filepath.Base(pos.Filename), pos.Line, kind, strings.Join(vs, ","))
 				points = append(points, point{site, kind})
 				outl = append(outl, &ast.ExprStmt{X: &ast.CallExpr{Fun: ast.NewIdent("verifPoint"), Args: []ast.Expr{&ast.BasicLit{Kind: token.STRING, Value: fmt.Sprintf("%q", site)}}}})
 			}
